@@ -29,7 +29,10 @@ RULE = (
     "must equal our own encoder applied, in the input's notation (or in the "
     "notation of a given --print-format: ISO dump syntax with template or "
     "literal zones, or strftime directives), to the fields shifted on "
-    "vlib.refcal (exact part, then months, then years, per offset in order). kind 'diff': two date-times with offsets1/2: the "
+    "vlib.refcal (exact part, then months, then years, per offset in order). "
+    "kind 'diff': two date-times (one case in four with dyadic decimal "
+    "fractions of the smallest time unit; then within 1 us) with offsets1/2: "
+    "the "
     "printed duration, read by an own mini decoder, must satisfy first + d == "
     "second with the right sign; --as-total must be len(d)/unit. kind 'recur':"
     " exactly min(N, n) lines equal to the library's iteration rendered by "
@@ -209,9 +212,25 @@ DUR_RE = re.compile(r"^(-?)P(?:(\d+)Y)?(?:(\d+)M)?(?:(\d+)D)?"
                     r"(?:(\d+(?:[,.]\d+)?)S)?)?$")
 
 
-def decode_duration(text):
-    """Own mini decoder for printed durations -> signed seconds (Fraction)."""
-    m = DUR_RE.match(text)
+def frac_seconds(arg):
+    """Seconds spelled by the decimal fraction of the argument's last unit."""
+    if arg.get("frac") is None:
+        return 0
+    unit = 1 if "second" in arg["time"] else 60 if "minute" in arg["time"] \
+        else 3600
+    return Fraction("0." + arg["frac"]) * unit
+
+
+DUR_RE_LENIENT = re.compile(DUR_RE.pattern.replace(
+    r"(?:[,.]\d+)?", r"(?:[,.]\d+)?(?:e-\d+)?"))
+
+
+def decode_duration(text, lenient=False):
+    """Own mini decoder for printed durations -> signed seconds (Fraction).
+
+    lenient (decimal cases only): float noise printed in exponent notation
+    ("4,2e-12S") is read as the number it is."""
+    m = (DUR_RE_LENIENT if lenient else DUR_RE).match(text)
     if not m or text in ("P", "-P"):
         m2 = re.match(r"^(-?)P(\d+)W$", text)
         if not m2:
@@ -291,7 +310,8 @@ def check_case(case):
             utc = "--utc" in argv
             p1 = apply_offsets(cm, resolve(cm, a1, utc, sys_cfg), case["offsets1"])
             p2 = apply_offsets(cm, resolve(cm, a2, utc, sys_cfg), case["offsets2"])
-            true = M.kw_instant(cm, p2) - M.kw_instant(cm, p1)
+            true = (M.kw_instant(cm, p2) + frac_seconds(a2)) - (
+                M.kw_instant(cm, p1) + frac_seconds(a1))
             text = out.rstrip("\n")
             if case.get("total"):
                 unit = {"h": 3600, "m": 60, "s": 1}[case["total"].lower()]
@@ -302,8 +322,11 @@ def check_case(case):
                         shown, text, want)
                 classes.append("as_total/" + case["total"])
             else:
-                got = decode_duration(text)
-                if got != true:
+                frac = a1.get("frac") is not None or a2.get("frac") is not None
+                if frac:
+                    classes.append("diff/fractional")
+                got = decode_duration(text, lenient=frac)
+                if abs(got - true) > (M.US if frac else 0):
                     fail = ("diff: mode %s %s printed %r (= %s s) but second - "
                             "first is %s s" % (mode, shown, text, float(got),
                                                float(true)))
@@ -541,14 +564,19 @@ def st_shift(draw):
 def st_diff(draw):
     mode, via, margv, env = draw(st_mode())
     cm = mode or "gregorian"
-    a1 = draw(st_arg(cm, allow_reduced=False))
-    a2 = draw(st_arg(cm, allow_reduced=False))
-    if draw(st.booleans()):
-        # near each other
-        a2 = dict(a1)
-        a2 = draw(st_arg(cm, allow_reduced=False))
+    # one case in four may spell decimal fractions (dyadic) of the smallest
+    # time unit: the difference is then not a whole number of seconds
+    dec = draw(st.integers(0, 3)) == 0
+    a1 = draw(st_arg(cm, allow_decimal=dec, allow_reduced=False))
+    a2 = draw(st_arg(cm, allow_decimal=dec, allow_reduced=False))
     o1 = draw(st_offsets(False, maxn=2))
     o2 = draw(st_offsets(False, maxn=2))
+    if dec:
+        # exact offsets only: the reference adds the spelled fraction to the
+        # whole-second instants, which is valid when every step is a
+        # translation
+        o1 = [o for o in o1 if RC.is_exact(o[1])]
+        o2 = [o for o in o2 if RC.is_exact(o[1])]
     argv = list(margv) + flat(spell_offsets(draw, o1, 1)) + \
         flat(spell_offsets(draw, o2, 2))
     total = None
